@@ -1451,7 +1451,33 @@ def r4g_reads_and_writes_are_each_walked(ctx):
     ctx.floor("read/write walks in the analyses", n, 5)
 
 
-RULES = [("C03-R1", r1_plan_only_from_pure), ("C03-R1b", r1b_capture_write_is_an_effect), ("C03-R2", r2_effect_tables), ("C03-R2b", r2b_no_trap_verdicts_rest_on_stable_types), ("C03-R3", r3_plan_consulted), ("C03-R3b", r3b_plan_queries_read_their_own_table), ("C03-R4", r4_dataflow_shape), ("C03-R4b", r4b_reads_and_writes_reach_the_summaries), ("C03-R4c", r4c_summaries_are_a_transitive_closure), ("C03-R4d", r4d_bitset_arithmetic_agrees), ("C03-R4e", r4e_fixpoint_flags_are_sticky), ("C03-R4f", r4f_a_set_is_deduplicated_against_itself), ("C03-R4g", r4g_reads_and_writes_are_each_walked), ("C03-R5", r5_loop_cfg_shape), ("C03-R5b", r5b_scope_kills_sit_where_the_scope_ends)]
+def r5c_if_branches_flow_into_the_join_from_their_ends(ctx):
+    """After an `if`, control continues at a join block that is entered from where each branch *ended* (the cursor its lowering
+    left) - not from where it began.  A branch with control flow of its own ends in another block than it starts in; a goto
+    placed on its entry block overwrites that block's branch, the real tail is left without a successor, and when the other
+    branch ends in `comot` / `next` / `return` the join is unreachable: everything after the `if` is pruned as dead code,
+    whatever it does (a read_line, a shout)."""
+    from .c02 import _dispatch_arm
+    fn = ctx.need("analysis::cfg::FunctionBuilder::lower_stmt")
+    ctx.touch(fn)
+    arm = _dispatch_arm(fn, "parser::Stmt", "If") or set()
+    n = 0
+    for c in fn.calls():
+        if not (c.callee or "").endswith("::set_terminator") or c.block not in arm or len(c.args) < 3:
+            continue
+        term = sh(ne(fn.deep(c.args[2], 6))).replace(" ", "")
+        if not term.startswith("Terminator::Goto{new_block("):
+            continue
+        n += 1
+        src = sh(ne(fn.deep(c.args[1], 10))).replace(" ", "")
+        if "lower_block(" in src:
+            ctx.ok("if-join|from-branch-end#%d" % n, fn.where(c.block), "goto join placed on the block the branch's lowering ended in")
+        else:
+            ctx.bad("if-join|from-branch-entry|%s" % src[:24], fn.where(c.block), "the goto into the join block after an `if` is placed on `%s`, which is not where lowering the branch ended: for a branch that contains an `if` or a loop the join becomes unreachable from it and the statements after the `if` are pruned as dead" % src[:50])
+    ctx.floor("gotos into the join block of an if", n, 4)
+
+
+RULES = [("C03-R1", r1_plan_only_from_pure), ("C03-R1b", r1b_capture_write_is_an_effect), ("C03-R2", r2_effect_tables), ("C03-R2b", r2b_no_trap_verdicts_rest_on_stable_types), ("C03-R3", r3_plan_consulted), ("C03-R3b", r3b_plan_queries_read_their_own_table), ("C03-R4", r4_dataflow_shape), ("C03-R4b", r4b_reads_and_writes_reach_the_summaries), ("C03-R4c", r4c_summaries_are_a_transitive_closure), ("C03-R4d", r4d_bitset_arithmetic_agrees), ("C03-R4e", r4e_fixpoint_flags_are_sticky), ("C03-R4f", r4f_a_set_is_deduplicated_against_itself), ("C03-R4g", r4g_reads_and_writes_are_each_walked), ("C03-R5", r5_loop_cfg_shape), ("C03-R5b", r5b_scope_kills_sit_where_the_scope_ends), ("C03-R5c", r5c_if_branches_flow_into_the_join_from_their_ends)]
 
 EXPLANATION = (
     "R1: in build_optimization_plan every push into the removable sets is edge-dominated by the test that justifies it "
